@@ -80,4 +80,12 @@ def sliceSet (s : Slice α) (i : Nat) (v : α) : M (Slice α) :=
   | some l => if i < l.length then pure (some (l.set i v)) else throw "index out of range"
   | none => throw "index out of range"
 
+/-- `xs[i]` on a slice seen as a list: panics out of range -/
+def listGet [Inhabited α] (xs : List α) (i : Nat) : M α :=
+  if i < xs.length then pure (xs.getD i default) else throw "index out of range"
+
+/-- `xs[i] = v` on a slice seen as a list -/
+def listSet (xs : List α) (i : Nat) (v : α) : M (List α) :=
+  if i < xs.length then pure (xs.set i v) else throw "index out of range"
+
 end Go
